@@ -880,6 +880,9 @@ def _realcls(c):
 
 def isinstance_shim(obj, cls):
     cls = _realcls(cls)
+    if type(obj).__name__ == 'SStr':
+        t = cls if isinstance(cls, tuple) else (cls,)
+        return any(c in (str, object) or getattr(c, '__name__', '') == 'SStr' for c in t)
     if isinstance(obj, SInt):
         t = cls if isinstance(cls, tuple) else (cls,)
         from numbers import Number, Integral, Real
